@@ -6,7 +6,7 @@ from vlib import Toks, f2h, h2f, Broken
 ID = "C11"
 LEVEL = "proof"
 HARNESS = "c11"
-LEAN_MODULES = ["NanoVerif.Props.C11"]
+LEAN_MODULES = ["NanoVerif.Props.C11", "NanoVerif.Proofs.BoostFitC10"]
 NS = "NanoVerif.EarlyStopping."
 OBLIGATIONS = [NS + t for t in [
     "es_stop_iff", "es_snapshot_is_accepted", "es_no_missed_improvement", "es_strict_improvement",
@@ -17,6 +17,20 @@ OBLIGATIONS = [NS + t for t in [
     "fit_monitor_history", "fit_keeps_last_accepted", "fit_patience_stop", "fitObs_keeps_round_learners",
     "loopTrace_is_loop", "pickBest_none_iff", "pickBest_first_min", "roundEv_spec",
     "predict_append", "averaged_model_predicts_mean",
+]] + ["NanoVerif.BoostFit." + t for t in [
+    "tracked_outputs_eq_model_prediction", "stats_row_is_means_of_outputs", "kept_model_reproduces_optimum_row",
+    "fold_fit_refines_loop", "tuneShrinkage_spec", "round_update_gboost", "refit_starts_cleared", "finalize_predicts_mean",
+    "final_values_are_of_final_model", "gboost_reported_stats_are_stats_of_recomputed",
+    "gboost_fit_end_to_end", "linear_fit_end_to_end",
+    # Proofs/BoostFitC10.lean: the two weak-learner contracts proved for C10's model of the code, and the theorems without them
+    "c10_learners_satisfy_scale_law", "c10_learners_satisfy_merge_law", "tracked_outputs_eq_model_prediction_c10",
+    "kept_model_reproduces_optimum_row_c10",
+]] + ["NanoVerif.MLResult." + t for t in [
+    "reported_stats_are_stats_of_recomputed", "stats_out_of_range", "final_stats_are_stats_of_values", "tune_shape",
+    "first_batch_reads_nothing",
+]] + ["NanoVerif.LinearFit." + t for t in [
+    "linear_fold_stats_are_of_returned_model", "linear_final_stats_are_of_refit_model",
+    "linear_refit_ignores_previous_object", "linear_warm_start_reads_only_earlier",
 ]]
 TRUSTED = [
     "Lean 4.33.0 kernel + the Mathlib modules imported by Props/C11 (Order.Field.Basic, Data.List.Induction, Tactic.Linarith, "
@@ -42,6 +56,22 @@ TRUSTED = [
     "hook H3 itself (hooks/H3-gboost-trace.patch: add-only NANO_VERIF_TRACE lines + forwarding of the thread-local sink to "
     "the worker threads that fit the folds): the trace is taken to report the values the surrounding statements use; the "
     "harness rejects (`bad-trace`) any record sequence that does not follow the statement order of the loop",
+    "hand-written data-flow model NanoVerif/Model/BoostFit.lean (fold fit with tracked predictions, shrinkage modes, statistics "
+    "rows, tune_shrinkage, result.done, last stage of gboost_model_t::fit), Model/MLResult.lean (ml::result_t storage on top of "
+    "C13's Tune.Result and C20's storeStats) and Model/LinearFit.lean (bookkeeping of linear_t::fit). TIED BY: family `mlres` "
+    "(histories of add / store / store-final on a real ml::result_t: every stats(trial, fold, split, kind), extra, value(trial), "
+    "optimum_trial, final statistics; tolerance 1e-12 for means, the cancellation bound of tensor::stdev for stdev, percentiles and "
+    "counts exact), family `gbres` (gboost::result_t::update / done on given tensors and arbitrary sample lists: rows bit-exact), "
+    "and the extension `X` of every traced fold fit (gbloop): the model recomputes every statistics row from the logged per-sample "
+    "tensors and the fold's sample lists (BoostFit.statsRow, bit-exact), the ratio column from startRatio / the scan of the logged "
+    "grid values of tune_shrinkage (shrinkScan; grid values need hook H3b = hooks/H3b-gboost-fit-trace.patch, macro "
+    "NANO_VERIF_GBOOST_FIT_TRACE; without it the logged ratio is taken as an oracle answer)",
+    "run-time monitors on every traced fold fit (python oracle; those marked H3b are skipped without that hook): tracked predictions "
+    "at the optimum round = bias + sum of the stored fold model's learners on every sample (H3b, 1e-9), tune_shrinkage's answer = "
+    "first grid point with the smallest logged mean (H3b), the ratio used at the update = the one logged = the one in the row, "
+    "fitted samples within the training split / of the requested size / distinct for `subsample` (H3b), one scaling factor in "
+    "gboost mode; the weak-learner contracts ScaleLaw / MergeLaw are not monitored but PROVED for C10's model "
+    "(Proofs/BoostFitC10.lean)",
     "harness/c11.cpp (incl. the mapping of learner addresses to (round, prototype) ids and the matching of traces to "
     "(trial, fold) by hyper-parameters + validation samples), the python history / loop oracles and the statistics "
     "recomputation in tools/props/c11.py; g++/libstdc++/Eigen",
@@ -58,6 +88,12 @@ ASSUMPTIONS = [
     "features) is not modelled: the trace observes the learners before it; its effect is covered by the recomputation of the "
     "statistics from the stored fold models and by the prediction comparison only",
     "the numeric quality of the fits (solver convergence) is not claimed",
+    "data-flow theorems: an output cell is an abstract index, loss.error / loss.value are arbitrary functions of the predictions "
+    "and the sample, the sampler / weak-learner fits / bias and scaling solvers are arbitrary oracle answers per round; ScaleLaw is "
+    "assumed in `local` shrinkage mode only (necessary there: kernel-checked witness), MergeLaw for done / finalize; Scheduled "
+    "(the pool runs every index of a batch once, C13/C17) and `sort` (nth_element, C20) enter the ml::result_t theorems",
+    "tune_shrinkage adds and subtracts `shrinkage * woutputs` in place: the identity in the model's exact arithmetic, a residue of "
+    "a few ulp at double (outside the model; the monitor compares the logged grid values, not recomputed ones)",
 ]
 RULE = ("early stopping: exhaustive call histories over the alphabet {0, eps/2, eps, 2eps, 1} for the validation error x one "
         "training-error crossing position (or none; the non-crossing training error sits exactly on eps) x patience 1..4 with "
@@ -478,6 +514,14 @@ def gen_fit(rng, tier):
             rng.below(1 << 30), rng.range(24, 90), rng.range(1, 4), rng.range(0, 2), task, loss, rng.range(2, 5),
             rng.below(1025), model, rng.choice(["none", "mean", "minmax", "standard"]), solver,
             f2h(rng.choice([0.0, 0.05, 0.3, 1.0])), rng.choice([10, 16, 100])))
+    # local shrinkage on noisy data (the tuned ratio is then < 1 in most rounds: a ratio applied to the stored learner but not to
+    # the tracked predictions, or the reverse, shows in the recomputed statistics), half of them as re-fits
+    for k in range(6 if tier == "quick" else 10):
+        task, loss = ("reg", rng.choice(["mse", "mae"])) if k % 2 == 0 else _task_loss(rng)
+        ops.append("fit gboost {} {} {} {} {} {} {} {} {} {} {} {} {} {} {} {} {}".format(
+            rng.below(1 << 30), rng.range(40, 90), rng.range(1, 3), 0, task, loss, rng.range(2, 3), rng.below(1025),
+            rng.choice([10, 12, 20]), rng.range(2, 5), f2h(1e-6), rng.choice(["gboost", "tboost"]), "local", "off",
+            rng.choice(["affine", "stump", "stump,affine", "hinge"]), f2h(rng.choice([0.3, 1.0, 1.0])), rng.choice([10, 16, 100])))
     # every third fit is a RE-fit: the same model object was fitted on another sample set before (seeded change C11-c3: state of
     # the first fit leaking into the second); the statement's clauses are about the model the last fit() leaves
     return [op + " refit" if k % 3 == 1 else op for k, op in enumerate(ops)]
@@ -507,9 +551,80 @@ def gen_gbloop(rng, tier):
     return ops
 
 
+def _values(rng, n):
+    """n per-sample values: ties, constant lists, tiny and large magnitudes"""
+    mode = rng.below(6)
+    if mode == 0:
+        c = rng.uniform(0.0, 2.0)
+        return [c] * n
+    if mode == 1:
+        return [rng.below(4) / 4.0 for _ in range(n)]
+    if mode == 2:
+        return [rng.uniform(0.0, 1.0) * 10.0 ** rng.range(-6, 3) for _ in range(n)]
+    return [rng.uniform(0.0, 1.5) for _ in range(n)]
+
+
+def _vlist(xs):
+    return f"{len(xs)} " + " ".join(f2h(x) for x in xs)
+
+
+def gen_mlres(rng, tier):
+    """histories of ml::result_t::add / store(trial, fold, ...) / store(final): batches of trials as ml::tune adds them, the
+    (trial, fold) slots of a batch stored in a random order (as the pool would), some slots left unset (NaN), some stored twice"""
+    ops = []
+    for _ in range(250 if tier == "quick" else 1500):
+        folds = rng.range(1, 4)
+        trials, toks, nops, next_id = 0, [], 0, 1
+        for _b in range(rng.range(0, 4)):
+            k = rng.range(1, 3)
+            toks.append(f"A {k}"); nops += 1
+            slots = [(trials + t, f) for t in range(k) for f in range(folds)]
+            trials += k
+            slots = rng.shuffle(slots)
+            if rng.below(4) == 0 and slots:
+                slots = slots[:-1]                       # one slot stays NaN
+            if rng.below(5) == 0 and slots:
+                slots.append(rng.choice(slots))          # one slot stored twice: the last store wins
+            if rng.below(6) == 0 and trials > k:
+                slots.append((rng.below(trials - k), rng.below(folds)))   # an older trial overwritten
+            for (t, f) in slots:
+                ntr, nvd = rng.range(1, 24), rng.range(1, 12)
+                toks.append("S {} {} {} {} {} {} {}".format(t, f, _vlist(_values(rng, ntr)), _vlist(_values(rng, ntr)),
+                                                            _vlist(_values(rng, nvd)), _vlist(_values(rng, nvd)), next_id))
+                nops += 1; next_id += 1
+            if rng.below(8) == 0:
+                n = rng.range(1, 30)
+                toks.append("F {} {} {}".format(_vlist(_values(rng, n)), _vlist(_values(rng, n)), next_id)); nops += 1; next_id += 1
+        if rng.below(4) != 0:
+            n = rng.range(1, 40)
+            toks.append("F {} {} {}".format(_vlist(_values(rng, n)), _vlist(_values(rng, n)), next_id)); nops += 1
+        ops.append(f"mlres {folds} {nops} " + " ".join(toks))
+    return ops
+
+
+def gen_gbres(rng, tier):
+    """gboost::result_t::update / done on given per-sample tensors and arbitrary (non-contiguous, repeating, empty) sample lists"""
+    ops = []
+    for _ in range(150 if tier == "quick" else 1000):
+        n = rng.range(1, 16)
+        ntrain = rng.range(0, 12)
+        nvalid = rng.choice([0, 0, 1, 2, 5, rng.range(0, 9)])
+        train = [rng.below(n) for _ in range(ntrain)]
+        valid = [rng.below(n) for _ in range(nvalid)]
+        max_rounds = rng.range(0, 6)
+        calls = rng.range(1, max_rounds + 1)
+        body = []
+        for _k in range(calls):
+            body.append(f2h(rng.choice([1.0, 0.1, 0.5, rng.uniform(0.0, 1.0)])) + " " + _vlist(_values(rng, 2 * n)))
+        ops.append("gbres {} {} {} {} {} {} {}".format(
+            f"{ntrain} " + " ".join(map(str, train)) if ntrain else "0",
+            f"{nvalid} " + " ".join(map(str, valid)) if nvalid else "0", n, max_rounds, calls, " ".join(body), rng.below(calls)))
+    return ops
+
+
 def gen(rng, tier):
     os.makedirs(HARNESS_ENV["TMPDIR"], exist_ok=True)
-    return _corpus() + gen_fit(rng, tier) + gen_gbloop(rng, tier) + gen_es(rng, tier)
+    return _corpus() + gen_fit(rng, tier) + gen_gbloop(rng, tier) + gen_mlres(rng, tier) + gen_gbres(rng, tier) + gen_es(rng, tier)
 
 
 # ---------------------------------------------------------------------------------------------------------
@@ -608,6 +723,10 @@ def oracle(op, res):
         return oracle_fit(op, res)
     if fam == "gbloop":
         return oracle_gbloop(op, res)
+    if fam == "mlres":
+        return oracle_mlres(op, res)
+    if fam == "gbres":
+        return oracle_gbres(op, res)
     return f"unknown family {fam}"
 
 
@@ -671,6 +790,7 @@ def parse_gbloop(aug, res):
         f.exit, f.fin_round, f.fin_value, f.snap, f.done_round = r.s(), r.int(), r.f(), r.int(), r.int()
         f.kept = [r.int() for _k in range(r.int())]
         f.rows = [(r.f(), r.f()) for _k in range(r.int())]
+        parse_ext(a, r, f)
         fits.append(f)
     a.expect("M"); r.expect("M")
     fold_bias = []
@@ -684,6 +804,140 @@ def parse_gbloop(aug, res):
     if a.i != len(a.t) or r.i != len(r.t):
         raise ValueError("trailing tokens")
     return (trials, folds, optimum), fits, (fold_bias, merged, denom, bias, concat)
+
+
+def parse_ext(a, r, f):
+    """the data flow of the fold fit: aug `X ... Y ...` (oracle answers), res `X <rows>` (the statistics rows written)"""
+    a.expect("X")
+    f.shrinkage = a.s()
+    f.params = a.fs(a.int())
+    f.has_values = a.int() == 1
+    f.ext_rounds = []
+    if f.has_values:
+        f.train = [a.int() for _k in range(a.int())]
+        f.valid = [a.int() for _k in range(a.int())]
+        f.values0 = a.fs(a.int())
+        for _k in range(a.int()):
+            q = GbFit()
+            q.kind = a.s()
+            if q.kind == "f":
+                a.expect("T")
+                q.tune = [(a.f(), a.f()) for _j in range(a.int())]
+                q.logged_ratio = a.f()
+                q.values = a.fs(a.int())
+            f.ext_rounds.append(q)
+    a.expect("Y")
+    end = a.int() + a.i
+    f.mon = []
+    for _k in range(a.int()):
+        m = GbFit()
+        m.kind = a.s()
+        m.samples = [a.int() for _j in range(a.int())] if a.int() == 1 else None
+        m.tune = None
+        if a.int() == 1:
+            m.tune = [(a.f(), a.f()) for _j in range(a.int())]
+            m.tune_best, m.tune_best_value = a.f(), a.f()
+        m.out_ratio = a.f() if a.int() == 1 else None
+        if m.kind == "f":
+            m.err_ratio, m.row_ratio = a.f(), a.f()
+        f.mon.append(m)
+    a.expect("I")
+    f.inv_diff, f.inv_scale = a.f(), a.f()
+    if a.i != end:
+        raise ValueError("length of the Y group")
+    r.expect("X")
+    f.ext_rows = [r.fs(5) for _k in range(r.int())]
+
+
+GRID = [0.1, 0.2, 0.3, 0.4, 0.5, 0.6, 0.7, 0.8, 0.9, 1.0]
+
+
+def mean_in_order(vals, samples):
+    """gboost::mean_error / mean_loss as the statement reads them: the mean of the listed samples' values (0 for none)"""
+    acc = 0.0
+    for smp in samples:
+        acc += vals[smp]
+    return acc / max(len(samples), 1)
+
+
+def first_argmin(pairs):
+    best, best_value = 0.0, DBL_MAX
+    for ratio, value in pairs:
+        if value < best_value:
+            best, best_value = ratio, value
+    return best, best_value
+
+
+def oracle_ext(f, subsample):
+    """the per-round statistics are (mean train error, mean train loss, mean valid error, mean valid loss) of the per-sample
+    values of the tracked predictions, with the shrinkage ratio of the round; the local ratio is the first grid point with the
+    smallest mean validation loss and is the one applied; the weak learner is fitted on training samples only; the tracked
+    predictions at the optimum round are those of the stored fold model"""
+    where = f"trial {f.trial} fold {f.fold}"
+    # the run-time monitors (hook H3b; absent records are skipped)
+    nfit = 0
+    for k, m in enumerate(f.mon):
+        if m.samples is not None and f.has_values:
+            tr = set(f.train)
+            if any(x not in tr for x in m.samples):
+                return f"{where} round {k}: the weak learner is fitted on samples outside the training split of the fold"
+            if subsample == "off":
+                if m.samples != f.train:
+                    return f"{where} round {k}: sub-sampling is off but the fitted samples are not the training samples"
+            else:
+                want = int(0.8 * len(f.train))
+                if len(m.samples) != want:
+                    return f"{where} round {k}: {len(m.samples)} fitted samples, subsample_ratio * |train| = {want}"
+                if subsample == "subsample" and len(set(m.samples)) != len(m.samples):
+                    return f"{where} round {k}: sampling without replacement returned a sample twice"
+        if m.tune is not None:
+            if f.shrinkage != "local":
+                return f"{where} round {k}: tune_shrinkage called although shrinkage is {f.shrinkage}"
+            if [t[0] for t in m.tune] != GRID:
+                return f"{where} round {k}: shrinkage grid {[t[0] for t in m.tune]}"
+            best, best_value = first_argmin(m.tune)
+            if not (same(best, m.tune_best) and same(best_value, m.tune_best_value)):
+                return (f"{where} round {k}: tune_shrinkage answered {m.tune_best!r} (mean validation loss {m.tune_best_value!r}), "
+                        f"the first grid point with the smallest mean validation loss is {best!r} ({best_value!r})")
+            if m.kind == "f" and not same(m.row_ratio, m.tune_best):
+                return f"{where} round {k}: tuned ratio {m.tune_best!r} but the round records {m.row_ratio!r}"
+        elif m.kind == "f" and f.shrinkage == "local" and m.out_ratio is not None:
+            return f"{where} round {k}: local shrinkage without a call of tune_shrinkage"
+        if m.kind == "f":
+            nfit += 1
+            if not same(m.err_ratio, m.row_ratio) or (m.out_ratio is not None and not same(m.out_ratio, m.row_ratio)):
+                return f"{where} round {k}: ratio at the update {m.out_ratio!r}, logged {m.err_ratio!r}, in the statistics {m.row_ratio!r}"
+            if f.shrinkage == "off" and m.row_ratio != 1.0:
+                return f"{where} round {k}: shrinkage is off but the ratio is {m.row_ratio!r}"
+            if f.shrinkage == "global" and not (len(f.params) == 1 and same(m.row_ratio, f.params[0])):
+                return f"{where} round {k}: global shrinkage {f.params} but the ratio is {m.row_ratio!r}"
+    if f.inv_diff >= 0.0 or f.inv_diff != f.inv_diff:
+        if not (f.inv_diff <= 1e-9 * max(1.0, f.inv_scale)):
+            return (f"{where}: the tracked predictions at the optimum round {f.fin_round} differ by {f.inv_diff!r} from bias + sum of "
+                    f"the stored fold model's weak learners (magnitude {f.inv_scale!r})")
+        GB_SEEN["gbloop-fold-fits/invariant-at-optimum-checked"] = GB_SEEN.get("gbloop-fold-fits/invariant-at-optimum-checked", 0) + 1
+    if not f.has_values:
+        return None
+    # the statistics rows from the per-sample values
+    cur, k = f.values0, 0
+    n = len(cur) // 2
+    calls = [("b", f.values0)] + [(q.kind, getattr(q, "values", None)) for q in f.ext_rounds]
+    if len(f.ext_rows) != len(calls):
+        return f"{where}: {len(f.ext_rows)} statistics rows written for {len(calls)} calls of result.update"
+    for k, ((kind, vals), row) in enumerate(zip(calls, f.ext_rows)):
+        if kind != "s":
+            cur = vals                      # a failed scaling repeats the current values
+        if len(cur) != 2 * n or any(x >= n for x in f.train + f.valid):
+            return f"{where}: shape of the per-sample values"
+        want = [mean_in_order(cur[:n], f.train), mean_in_order(cur[n:], f.train),
+                mean_in_order(cur[:n], f.valid), mean_in_order(cur[n:], f.valid)]
+        for name, g, w in zip(("mean train error", "mean train loss", "mean valid error", "mean valid loss"), row, want):
+            if not vlib.close(g, w, 1e-12, 0.0):
+                return f"{where}: statistics row {k}: {name} {g!r}, the per-sample values of the round average to {w!r}"
+    GB_SEEN["gbloop-fold-fits/rows-recomputed"] = GB_SEEN.get("gbloop-fold-fits/rows-recomputed", 0) + 1
+    if f.shrinkage == "local" and any(m.tune is not None and m.tune_best < 1.0 for m in f.mon):
+        GB_SEEN["gbloop-fold-fits/local-ratio-below-1"] = GB_SEEN.get("gbloop-fold-fits/local-ratio-below-1", 0) + 1
+    return None
 
 
 def oracle_gbfit(f):
@@ -797,7 +1051,11 @@ def oracle_gbloop(aug, res):
     except (ValueError, IndexError) as ex:
         return f"cannot parse the traced fit: {ex!r} :: {res[:80]}"
     for f in fits:
-        why = oracle_gbfit(f)
+        if t[12] == "gboost":
+            for k, q in enumerate(f.rounds):
+                if q.kind in "sf" and len(q.x) != 1:
+                    return f"trial {f.trial} fold {f.fold} round {k}: {len(q.x)} scaling factors in gboost mode (one group)"
+        why = oracle_gbfit(f) or oracle_ext(f, t[14])
         if why:
             return why
         GB_SEEN["gbloop-fold-fits/exit-" + f.exit] = GB_SEEN.get("gbloop-fold-fits/exit-" + f.exit, 0) + 1
@@ -984,6 +1242,181 @@ def oracle_fit(op, res):
     return None
 
 
+# ---------------------------------------------------------------------------------------------------------
+# ml::result_t driven directly: what stats(trial, fold, split, kind) returns is the statistics of the per-sample values stored
+# for exactly that trial, fold, split and kind; extra(trial, fold) is the data stored with them; value(trial) the mean over the
+# folds of the mean validation errors; optimum_trial the first trial with the smallest value
+
+def parse_mlres_op(op):
+    r = _R(op)
+    r.expect("mlres")
+    folds, nops = r.int(), r.int()
+    acts = []
+    for _ in range(nops):
+        k = r.s()
+        if k == "A":
+            acts.append(("A", r.int()))
+        elif k == "S":
+            trial, fold = r.int(), r.int()
+            blocks = [r.fs(r.int()) for _j in range(4)]
+            acts.append(("S", trial, fold, blocks, r.int()))
+        elif k == "F":
+            blocks = [r.fs(r.int()) for _j in range(2)]
+            acts.append(("F", blocks, r.int()))
+        else:
+            raise ValueError("mlres op")
+    return folds, acts
+
+
+def parse_mlres_res(res):
+    r = _R(res)
+    r.expect("ok")
+    trials, folds = r.int(), r.int()
+    cells = {}
+    for t in range(trials):
+        for f in range(folds):
+            r.expect("C")
+            cells[(t, f)] = (r.int(), [r.fs(12) for _j in range(4)])
+    r.expect("V")
+    values = r.fs(r.int())
+    r.expect("O")
+    opt = r.int()
+    r.expect("G")
+    fin = [r.fs(12), r.fs(12)]
+    fin_id = r.int()
+    if r.i != len(r.t):
+        raise ValueError("trailing tokens")
+    return trials, folds, cells, values, opt, fin, fin_id
+
+
+def oracle_mlres(op, res):
+    try:
+        folds, acts = parse_mlres_op(op)
+        trials, rfolds, cells, values, opt, fin, fin_id = parse_mlres_res(res)
+    except (ValueError, IndexError) as ex:
+        return f"cannot parse: {ex!r} :: {res[:80]}"
+    want_trials, stored, final = 0, {}, None
+    for act in acts:
+        if act[0] == "A":
+            want_trials += act[1]
+        elif act[0] == "S":
+            stored[(act[1], act[2])] = (act[3], act[4])
+        else:
+            final = (act[1], act[2])
+    if (trials, rfolds) != (want_trials, folds):
+        return f"{trials} trials x {rfolds} folds reported, {want_trials} x {folds} were added"
+    names = ("train errors", "train losses", "valid errors", "valid losses")
+    for (t, f), (ident, blocks) in cells.items():
+        if (t, f) not in stored:
+            if ident != -1 or any(x == x for b in blocks for x in b):
+                return f"trial {t} fold {f} was never stored but reports statistics / model data"
+            continue
+        xs, want_id = stored[(t, f)]
+        if ident != want_id:
+            return f"trial {t} fold {f}: extra() is the data stored as #{ident}, the last store for this slot was #{want_id}"
+        for name, g, x in zip(names, blocks, xs):
+            why = cmp_stats(f"trial {t} fold {f} {name}", g, x)
+            if why:
+                return why
+    want_values = []
+    for t in range(trials):
+        if all((t, f) in stored for f in range(folds)):
+            want_values.append(sum(math.fsum(stored[(t, f)][0][2]) / len(stored[(t, f)][0][2]) for f in range(folds)) / folds)
+        else:
+            want_values.append(float("nan"))
+    for t, (g, w) in enumerate(zip(values, want_values)):
+        if not vlib.close(g, w, FIT_RTOL, FIT_ATOL):
+            return f"value({t}) = {g!r}, the mean validation error over the folds is {w!r}"
+    fin_vals = [v for v in want_values if v == v]
+    if fin_vals:
+        lo = min(fin_vals)
+        first = next(t for t, v in enumerate(want_values) if v == v and v <= lo + FIT_RTOL * abs(lo) + FIT_ATOL)
+        ok = (0 <= opt < trials and want_values[opt] == want_values[opt]
+              and want_values[opt] <= lo + FIT_RTOL * abs(lo) + FIT_ATOL
+              and not any(v == v and v < want_values[opt] - FIT_RTOL * abs(lo) - FIT_ATOL for v in want_values[:opt]))
+        if not ok:
+            return f"optimum_trial() = {opt}, the first trial with the smallest value ({lo!r}) is {first}; values {want_values}"
+    elif opt != 0:
+        return f"optimum_trial() = {opt} although no trial has a value"
+    if final is None:
+        if fin_id != -1 or any(x == x for b in fin for x in b):
+            return "final statistics reported although none were stored"
+    else:
+        if fin_id != final[1]:
+            return f"extra() is #{fin_id}, the last final store was #{final[1]}"
+        for name, g, x in zip(("final errors", "final losses"), fin, final[0]):
+            why = cmp_stats(name, g, x)
+            if why:
+                return why
+    return None
+
+
+def oracle_gbres(op, res):
+    r = _R(op)
+    r.expect("gbres")
+    train = [r.int() for _k in range(r.int())]
+    valid = [r.int() for _k in range(r.int())]
+    n, _max_rounds = r.int(), r.int()
+    calls = [(r.f(), r.fs(r.int())) for _k in range(r.int())]
+    rnd = r.int()
+    g = _R(res)
+    if g.s() != "ok":
+        return f"did not answer ok: {res[:60]}"
+    rows = [g.fs(5) for _k in range(g.int())]
+    if len(rows) != rnd + 1:
+        return f"done({rnd}) keeps {len(rows)} statistics rows"
+    for k, row in enumerate(rows):
+        ratio, vals = calls[k]
+        want = [mean_in_order(vals[:n], train), mean_in_order(vals[n:], train), mean_in_order(vals[:n], valid),
+                mean_in_order(vals[n:], valid), ratio]
+        for name, a, b in zip(("mean train error", "mean train loss", "mean valid error", "mean valid loss", "ratio"), row, want):
+            if not vlib.close(a, b, 1e-12, 0.0):
+                return f"row {k}: {name} {a!r}, the values given at update({k}) give {b!r}"
+    return None
+
+
+def compare(aug, impl, model):
+    """exact for every family; `mlres` compares the statistics blocks with the tolerance of the Eigen reductions (mean, stdev)
+    and accepts another optimum trial only when the two trials' values agree within that tolerance"""
+    if impl == model:
+        return True
+    if not aug.startswith("mlres "):
+        return False
+    try:
+        a = parse_mlres_res(impl)
+        b = parse_mlres_res(model)
+    except (ValueError, IndexError):
+        return False
+    if a[0] != b[0] or a[1] != b[1] or a[6] != b[6]:
+        return False
+
+    def block_ok(x, y):
+        scale = max([abs(v) for v in x if v == v] + [0.0])
+        for j, (g, w) in enumerate(zip(x, y)):
+            if j == 1:
+                tiny = 1e-6 * scale
+                if g != g or w != w:
+                    if not ((g != g or abs(g) <= tiny) and (w != w or abs(w) <= tiny)):
+                        return False
+                elif abs(g - w) > 1e-9 * max(abs(g), abs(w)) + 1e-7 * scale + 1e-300:
+                    return False
+            elif not vlib.close(g, w, 1e-12, 0.0):
+                return False
+        return True
+
+    for key, (ident, blocks) in a[2].items():
+        ident2, blocks2 = b[2][key]
+        if ident != ident2 or not all(block_ok(x, y) for x, y in zip(blocks, blocks2)):
+            return False
+    if not all(vlib.close(x, y, 1e-12, 0.0) for x, y in zip(a[3], b[3])):
+        return False
+    if a[4] != b[4]:
+        va, vb = a[3][a[4]], a[3][b[4]]
+        if not vlib.close(va, vb, 1e-12, 0.0):
+            return False
+    return all(block_ok(x, y) for x, y in zip(a[5], b[5]))
+
+
 def model_skip(op):
     return op.startswith("fit ")
 
@@ -1006,6 +1439,8 @@ def distribution(ops):
             key = f"es/{t[1]}/{'valid' if t[5] != '0' else 'novalid'}/len{L if L <= 8 else '9+'}"
         elif t[0] == "gbloop":
             key = f"gbloop/{t[12]}/{t[13]}/{t[14]}"
+        elif t[0] in ("mlres", "gbres"):
+            key = t[0]
         else:
             key = f"fit/{t[1]}"
         d[key] = d.get(key, 0) + 1
@@ -1021,6 +1456,10 @@ def classify(op, kind, detail):
         return "early_stopping_t::done"
     if t[0] == "gbloop":
         return "gboost::fit:round-loop"
+    if t[0] == "mlres":
+        return "ml::result_t"
+    if t[0] == "gbres":
+        return "gboost::result_t"
     if kind == "crash" and len(t) > 16 and t[1] == "gboost" and "dtree" in t[16].split(","):
         return "crash:gboost-fit:dtree:dataset_t::check(empty)"
     return f"fit/{t[1]}" if len(t) > 1 else "fit"
@@ -1066,6 +1505,32 @@ ANCHORS = {
         ("fold averaging: bias scaled", "m_bias.vector() *= denom;", 1),
         ("fold averaging: learners scaled", "wlearner->scale(vdenom);", 1),
         ("prediction starts from the bias", "outputs.reshape(samples.size(), -1).matrix().rowwise() = m_bias.vector().transpose();", 1),
+        # Model/BoostFit.lean
+        ("global ratio = the tuned hyper-parameter", "shrinkage_ratio = params(index);", 1),
+        ("sampler over the training samples", "auto sampler = sampler_t{train_samples, subsample, seed, subsample_ratio};", 1),
+        ("statistics row 0", "result.update(0, shrinkage_ratio, bstate);", 1),
+        ("learner scaled by the solver's factors times the ratio", "best_wlearner->scale(gstate.x() * shrinkage_ratio);", 1),
+        ("predictions of the scaled learner on a zeroed buffer", "woutputs.zero(); best_wlearner->predict(dataset, samples, woutputs.tensor());", 2),
+        ("local mode: ratio tuned on the validation samples", "shrinkage_ratio = tune_shrinkage(valid_targets_iterator, loss, outputs, woutputs);", 1),
+        ("local mode: stored learner re-scaled", "best_wlearner->scale(make_full_vector<scalar_t>(1, shrinkage_ratio));", 1),
+        ("local mode: added predictions re-scaled", "woutputs.array() *= shrinkage_ratio;", 1),
+        ("tracked predictions updated", "outputs.vector() += woutputs.vector();", 1),
+        ("per-sample values of the tracked predictions", "::nano::gboost::evaluate(targets_iterator, loss, outputs, values);", 3),
+        ("re-fit: bias cleared", "m_bias = make_full_tensor<scalar_t>(make_dims(::nano::size(dataset.target_dims())), 0.0);", 1),
+        ("re-fit: learners cleared", "m_wlearners.clear();", 1),
+        ("final statistics of the final model on the fitted samples", "fit_result.store(::selected(values, samples));", 1),
+    ],
+    "src/machine/result.cpp": [
+        ("train errors block", "store_stats(train_errors_losses.tensor(0), m_values.tensor(trial, fold, 0, 0));", 1),
+        ("train losses block", "store_stats(train_errors_losses.tensor(1), m_values.tensor(trial, fold, 0, 1));", 1),
+        ("valid errors block", "store_stats(valid_errors_losses.tensor(0), m_values.tensor(trial, fold, 1, 0));", 1),
+        ("valid losses block", "store_stats(valid_errors_losses.tensor(1), m_values.tensor(trial, fold, 1, 1));", 1),
+        ("model data slot", "m_extras[static_cast<size_t>(trial * folds() + fold)] = std::move(extra);", 1),
+    ],
+    "src/linear.cpp": [
+        ("fold fit on the training samples, warm-started", "auto result = ::fit(*this, dataset, train_samples, loss, fit_params.solver(), params, logger, extra);", 1),
+        ("refit on all samples, cold", "auto result = ::fit(*this, dataset, samples, loss, fit_params.solver(), params, logger);", 1),
+        ("the object keeps the refit model", "m_bias = result.m_bias; m_weights = result.m_weights;", 1),
     ],
     "src/gboost/result.cpp": [
         ("result_t::done erases [round, end)", "m_wlearners.erase(m_wlearners.begin() + optimum_round, m_wlearners.end());", 1),
@@ -1089,5 +1554,5 @@ def static_checks():
         for what, stmt, count in anchors:
             got = text.count(re.sub(r"\s+", "", stmt))
             if got != count:
-                bad.append(f"{rel}: `{stmt}` ({what}) occurs {got} time(s), the model Model/Boost.lean mirrors {count}")
+                bad.append(f"{rel}: `{stmt}` ({what}) occurs {got} time(s), the models Model/Boost*.lean, MLResult.lean, LinearFit.lean mirror {count}")
     return bad
